@@ -12,6 +12,15 @@ NPROC = int(os.environ.get("VERIF_NPROC", "16"))
 
 def _call(args):
     modname, funcname, kwargs = args
+    if os.environ.get("VERIF_DUMP_AFTER"):
+        # debugging aid: dump the Python stack of a shard that runs longer
+        # than the given number of seconds (does not stop it)
+        import faulthandler
+        import sys
+
+        faulthandler.dump_traceback_later(
+            int(os.environ["VERIF_DUMP_AFTER"]), repeat=False,
+            file=sys.stderr)
     try:
         mod = importlib.import_module(modname)
         out = getattr(mod, funcname)(**kwargs)
